@@ -33,9 +33,12 @@ func (self *Interpreter) importItem(node ast.AnalyzedImport) *value.Interrupt {
 	_, moduleFound := self.sourceModules[node.FromModule.Ident()]
 
 	if moduleFound {
-		// visit the module so that the root scope is populated
-		if i := self.execModule(node.FromModule.Ident(), true); i != nil {
-			return i
+		// visit the module so that the root scope is populated: a module is only initialized once,
+		// regardless of how many import statements name it
+		if _, initialized := self.modules[node.FromModule.Ident()]; !initialized {
+			if i := self.execModule(node.FromModule.Ident(), true); i != nil {
+				return i
+			}
 		}
 
 		for _, importItem := range node.ToImport {
